@@ -105,7 +105,7 @@ def run(chk: Check) -> None:
         "printers (each printer looks at its parent and children only - this locality is what the shape domain relies on).")
     chk.assumptions = ["printers inspect only parent and children kinds (depth-2 shape domain)", "tokenizer == specification (C11)",
                        "AbsExpression is unreachable from parser and rules"]
-    recs = analyse_printer(str(REPO))
+    recs = analyse_printer(str(REPO), tier=chk.tier)
     chk.analysed["shapes"] = len(recs)
     run_roundtrip(chk, recs)
     run_number_text(chk, prog)
